@@ -124,3 +124,105 @@ func genScenario(r *rng, role string, crashy bool) []string {
 }
 
 func scenarioKey(steps []string) string { return strings.Join(steps, ";") }
+
+func rep(s string, n int) []string {
+	out := make([]string, n)
+	for i := range out {
+		out[i] = s
+	}
+	return out
+}
+
+func cat(parts ...[]string) []string {
+	var out []string
+	for _, p := range parts {
+		out = append(out, p...)
+	}
+	return out
+}
+
+// restPrefixes: for every role, scenario prefixes that bring a swap to each state in which it can be at
+// rest (waiting for an outside event), including the rest points after exhausted retries.
+func restPrefixes(role, chain string) map[string][]string {
+	n := "new " + role + " " + chain
+	switch role {
+	case "outSender":
+		return map[string][]string{
+			"AwaitAgreement":            {n},
+			"AwaitTxBroadcastedMessage": {n, "agree"},
+			"AwaitTxConfirmation":       {n, "agree", "txmsg"},
+			"ClaimSwap":                 cat([]string{n, "agree", "txmsg"}, rep("fault preimage down", 22), []string{"confirm"}),
+			"Canceled":                  {n, "cancel"},
+			"ClaimedPreimage":           {n, "agree", "txmsg", "confirm"},
+			"ClaimedCoop":               {n, "agree", "txmsg", "payout fail", "confirm"},
+		}
+	case "inReceiver":
+		return map[string][]string{
+			"AwaitTxBroadcastedMessage": {n},
+			"AwaitTxConfirmation":       {n, "txmsg"},
+			"ClaimSwap":                 cat([]string{n, "txmsg"}, rep("fault preimage down", 22), []string{"confirm"}),
+			"Canceled":                  {n, "cancel"},
+			"ClaimedPreimage":           {n, "txmsg", "confirm"},
+			"ClaimedCoop":               {n, "txmsg", "payout fail", "confirm"},
+		}
+	case "inSender":
+		return map[string][]string{
+			"AwaitAgreement":    {n},
+			"AwaitClaimPayment": {n, "agree"},
+			"WaitCsv":           {n, "agree", "cancel"},
+			"ClaimSwapCsv":      cat([]string{n, "agree"}, rep("fault csv down", 22), []string{"csv keep"}),
+			"Canceled":          {n, "cancel"},
+			"ClaimedPreimage":   {n, "agree", "claimpaid"},
+			"ClaimedCoop":       {n, "agree", "coop"},
+			"ClaimedCsv":        {n, "agree", "csv"},
+		}
+	case "outReceiver":
+		return map[string][]string{
+			"AwaitFeeInvoicePayment":   {n},
+			"AwaitClaimInvoicePayment": {n, "feepaid"},
+			"WaitCsv":                  {n, "feepaid", "cancel"},
+			"ClaimSwapCsv":             cat([]string{n, "feepaid"}, rep("fault csv down", 22), []string{"csv keep"}),
+			"Canceled":                 {n, "cancel"},
+			"ClaimedPreimage":          {n, "feepaid", "claimpaid"},
+			"ClaimedCoop":              {n, "feepaid", "coop"},
+			"ClaimedCsv":               {n, "feepaid", "csv"},
+		}
+	}
+	return nil
+}
+
+var stimuli = []string{"timeout", "cancel", "cancel from=third", "coop", "coop badkey", "agree", "agree badpubkey", "txmsg", "txmsg tx=junk",
+	"confirm", "confirm err", "csv", "csv keep", "claimpaid force", "feepaid force", "restart", "blocks btc 600", "blocks lbtc 100"}
+
+type scn struct {
+	role  string
+	steps []string
+}
+
+// sweepScenarios: every rest state of every role × every outside stimulus (× both chains), each
+// followed by a restart and the redelivery of pending notifications.  Deterministic.
+func sweepScenarios(rolesWanted []string) []scn {
+	var out []scn
+	for _, role := range rolesWanted {
+		for _, chain := range []string{"btc", "lbtc"} {
+			pre := restPrefixes(role, chain)
+			var names []string
+			for k := range pre {
+				names = append(names, k)
+			}
+			sortStrings(names)
+			for _, st := range names {
+				for _, stim := range stimuli {
+					tail := []string{stim, "restart"}
+					if isTaker(role) {
+						tail = append(tail, "confirm")
+					} else {
+						tail = append(tail, "csv")
+					}
+					out = append(out, scn{role, cat(pre[st], tail)})
+				}
+			}
+		}
+	}
+	return out
+}
